@@ -290,7 +290,7 @@ class C16(Prop):
                 elif op == "extend_types":
                     c = w.pick("cls", on)
                     tc = w.pick("tc", on + fl)
-                    if not c._CREATED_WITH_DEFAULT_TYPES:
+                    if not getattr(c, "_CREATED_WITH_DEFAULT_TYPES", False):
                         w.add("cls", V.extend(c, type_checker=tc), desc)
                 elif op in ("create", "create_versioned"):
                     c = w.pick("cls", on)
